@@ -508,8 +508,10 @@ def run(ctx):
     for i in range(n):
         for j in range(n):
             obs, exp = M[i][j], E[i][j]
-            if obs != exp:
-                k = classify(encs[i], encs[j], obs) if isinstance(obs, int) else None
+            # every consumer of struct_cmp except compare/3 only looks at the sign; compare/3 is judged through the engine
+            sg = cmp3(obs, 0) if isinstance(obs, int) else obs
+            if sg != exp:
+                k = classify(encs[i], encs[j], sg) if isinstance(obs, int) else None
                 found.append((k, len(sources[i]) + len(sources[j]),
                               "struct_cmp(%s, %s) = %r, standard order of terms says %d" % (sources[i], sources[j], obs, exp),
                               {"kind": "pair", "a": sources[i], "b": sources[j], "observed": obs, "expected": exp}))
@@ -528,26 +530,27 @@ def run(ctx):
     report(ctx, found, None)
     ctx.log("direct: %d pairs, %d disagree with the order" % (n * n, len(found)))
 
-    # order laws on the implementation's own matrix (independent of the reference)
+    # order laws on the implementation's own matrix of signs (independent of the reference)
+    S = [[cmp3(x, 0) if isinstance(x, int) else x for x in row] for row in M]
     laws = []
     sub = list(range(min(n, ctx.n(110, 260))))
     for i in sub:
-        if M[i][i] != 0:
-            laws.append((None, len(sources[i]), "struct_cmp(%s, %s) = %r, not reflexive" % (sources[i], sources[i], M[i][i]),
-                         {"kind": "pair", "a": sources[i], "b": sources[i], "observed": M[i][i], "expected": 0}))
+        if S[i][i] != 0:
+            laws.append((None, len(sources[i]), "struct_cmp(%s, %s) = %r, not reflexive" % (sources[i], sources[i], S[i][i]),
+                         {"kind": "pair", "a": sources[i], "b": sources[i], "observed": S[i][i], "expected": 0}))
         for j in sub:
-            if isinstance(M[i][j], int) and isinstance(M[j][i], int) and M[i][j] != -M[j][i]:
-                k = classify(encs[i], encs[j], M[i][j])
+            if isinstance(S[i][j], int) and isinstance(S[j][i], int) and S[i][j] != -S[j][i]:
+                k = classify(encs[i], encs[j], S[i][j])
                 laws.append((k, len(sources[i]) + len(sources[j]),
-                             "antisymmetry fails: struct_cmp(%s,%s)=%r but struct_cmp(%s,%s)=%r" % (sources[i], sources[j], M[i][j], sources[j], sources[i], M[j][i]),
-                             {"kind": "pair", "a": sources[i], "b": sources[j], "observed": M[i][j], "expected": E[i][j]}))
+                             "antisymmetry fails: struct_cmp(%s,%s)=%r but struct_cmp(%s,%s)=%r" % (sources[i], sources[j], S[i][j], sources[j], sources[i], S[j][i]),
+                             {"kind": "pair", "a": sources[i], "b": sources[j], "observed": S[i][j], "expected": E[i][j]}))
     ntr = 0
     for i in sub:
-        Mi = M[i]
+        Mi = S[i]
         for j in sub:
             if Mi[j] != -1:
                 continue
-            Mj = M[j]
+            Mj = S[j]
             for k2 in sub:
                 if Mj[k2] == -1:
                     ntr += 1
@@ -671,8 +674,8 @@ def run(ctx):
             for x in xs:
                 for y in xs:
                     i, j = index_of[x], index_of[y]
-                    if M[i][j] != E[i][j]:
-                        ks.add(classify(encs[i], encs[j], M[i][j]) if isinstance(M[i][j], int) else None)
+                    if S[i][j] != E[i][j]:
+                        ks.add(classify(encs[i], encs[j], S[i][j]) if isinstance(S[i][j], int) else None)
             failing.setdefault(frozenset(ks), []).append(xs)
         cin = "; ".join(pref(e) for e in inp)
         coq_cases.append(("sortm", li, "sort_ok [%s] [%s]" % (cin, "; ".join(pref(e) for e in ob))))
@@ -814,6 +817,7 @@ def classify_sort(xs):
                     o = struct_cmp(objs[i], objs[j])
                 except Exception:  # noqa
                     return None
+                o = cmp3(o, 0)
                 if o != spec_cmp(encs[i], encs[j]):
                     ks.add(classify(encs[i], encs[j], o))
     if len(ks) == 1:
@@ -833,9 +837,9 @@ def replay(ctx):
         exp = spec_cmp(e[0], e[1])
         eo = engine_batch([(r["a"], r["b"])])[0]
         ctx.case(("pair", r["a"], r["b"]), True)
-        if obs != exp or eo != expected_engine(exp):
+        if cmp3(obs, 0) != exp or eo != expected_engine(exp):
             ctx.violation("struct_cmp(%s, %s) = %r (engine: %r), standard order says %d" % (r["a"], r["b"], obs, eo, exp),
-                          {"kind": "pair", "a": r["a"], "b": r["b"], "observed": obs, "expected": exp}, klass=classify(e[0], e[1], obs))
+                          {"kind": "pair", "a": r["a"], "b": r["b"], "observed": obs, "expected": exp}, klass=classify(e[0], e[1], cmp3(obs, 0)))
     elif kind == "sort":
         xs = r["list"]
         ctx.case(("sort", tuple(xs)), True)
